@@ -1015,5 +1015,29 @@ func FixedCorpus() []*Unit {
 		out = append(out, u)
 	}
 
+	// ---- pairs: user-declared messages that merely LOOK like map entries
+	{
+		u, f := unit("pairs", "nested and top-level messages made of exactly key = 1 and value = 2, one of them named <Field>Entry, next to real maps of them")
+		o := f.Msg("Outer")
+		pr := o.Nested("Pair")
+		pr.F("key", 1, S(String))
+		pr.F("value", 2, S(String))
+		o.R("pairs", 1, M(pr.Full()))
+		le := o.Nested("LabelsEntry")
+		le.F("key", 1, S(String))
+		le.F("value", 2, S(Int32))
+		o.R("labels_list", 2, M(le.Full()))
+		o.Map("real", 3, String, M(pr.Full()))
+		o.F("one", 4, M(pr.Full()))
+		top := f.Msg("KeyValue")
+		top.F("key", 1, S(Bytes))
+		top.F("value", 2, M(top.Full()))
+		o.Map("kv", 5, Int32, M(top.Full()))
+		ch := o.Oneof("pick")
+		o.O(ch, "p", 6, M(pr.Full()))
+		o.O(ch, "l", 7, M(le.Full()))
+		out = append(out, u)
+	}
+
 	return out
 }
